@@ -135,7 +135,7 @@ type Stats struct {
 }
 
 func NewStats() *Stats {
-	return &Stats{Counters: map[string]int{}, Distinct: map[string]map[string]bool{}, maxSamp: 6}
+	return &Stats{Counters: map[string]int{}, Distinct: map[string]map[string]bool{}, maxSamp: 8}
 }
 
 func (s *Stats) Inc(k string)        { s.Add(k, 1) }
@@ -181,6 +181,20 @@ func (s *Stats) Merge(o *Stats) {
 		}
 	}
 	for _, x := range o.Samples {
+		// at most two samples per "mode" (when a sample names one), eight in all
+		if m, ok := x.(map[string]any); ok {
+			if mode, ok := m["mode"].(string); ok {
+				n := 0
+				for _, y := range s.Samples {
+					if ym, ok := y.(map[string]any); ok && ym["mode"] == mode {
+						n++
+					}
+				}
+				if n >= 2 {
+					continue
+				}
+			}
+		}
 		if len(s.Samples) < s.maxSamp {
 			s.Samples = append(s.Samples, x)
 		}
